@@ -42,6 +42,29 @@ CHECKS = {
                 "(witnesses are decide+kernel theorems on the faithful port).",
         'technique': 'Lean 4 theorems on the tidy compiler and on the globstar/star fragments + May/Must sandwich search',
     },
+    'C06': {
+        'text': "Theorems (Lean) over the glob walker model (port of Glob._glob/_glob_dir/_iter, tied by exact result sequence AND "
+                "exact os.scandir call sequence on generated real trees incl. symlink cycles, stream K5): without FOLLOW and "
+                "without `***`, for every tree (cyclic links included), every matcher, every part list, every fuel above the "
+                "tree's height gives the same event sequence and the fuel never runs out (termination); every directory listed "
+                "during a `**` expansion is reached through entries that are not symbolic links (trace invariant); "
+                "follow_links = FOLLOW ∧ ¬GLOBSTARLONG for every flag word and the MATCHBASE prefix is `***` iff GLOBSTARLONG∧FOLLOW "
+                "(from generated flag values).",
+        'note': TB + "os.scandir / lstat abstracted as a file tree computed by querying the OS; CPython's own termination and "
+                "wall-clock are outside the model (timeouts are exit 2, never a verdict).",
+        'technique': 'Lean 4 fuel-stability (termination) + trace invariant theorems on a walker model; scandir-trace correspondence',
+    },
+    'C20': {
+        'text': "Theorem norm_tokens (Lean): for EVERY token list (plain, \\\\, simple escapes, \\xhh, octal, \\uhhhh, \\Uhhhhhhhh, "
+                "\\N{..}, other escapes, incomplete escapes) satisfying the stated maximal-munch adjacency condition, the model of "
+                "util.norm_pattern returns exactly the concatenation of the tokens' denotations, the first failing token deciding "
+                "the error; corollaries: incomplete \\x \\u \\U \\N raise SyntaxError, without RAWCHARS nothing is decoded, FORCEWIN "
+                "rewrites only \\/, bytes octal & 0xFF and no \\u\\U\\N. RE_NORM/RE_BNORM texts pinned from the source. "
+                "Tie K3: util.norm_pattern vs model on ALL strings up to length 5/6 over the escape alphabet (value or error kind); "
+                "search: RAWCHARS call vs the same call on the decoded pattern.",
+        'note': TB + "unicodedata.lookup is a parameter. Open known finding KF-D21 (decoded backslash not normalised under FORCEWIN).",
+        'technique': 'Lean 4 print/scan round-trip theorem with explicit adjacency side condition + exhaustive short-string correspondence',
+    },
     'C10': {
         'text': "Theorems over the faithful Lean port of WcParse: the pass is total for every string and every flag "
                 "record and can raise only the documented ValueError (and only under _NOABSOLUTE); the executable matcher "
@@ -55,5 +78,5 @@ CHECKS = {
 }
 
 NOT_APPLICABLE = {k: 'check not built yet in this session (model/proofs in progress); no claim is made' for k in
-                  [ 'C04', 'C05', 'C06', 'C07', 'C08', 'C09', 'C11', 'C12', 'C13', 'C14', 'C15',
-                   'C16', 'C17', 'C18', 'C19', 'C20']}
+                  [ 'C04', 'C05', 'C07', 'C08', 'C09', 'C11', 'C12', 'C13', 'C14', 'C15',
+                   'C16', 'C17', 'C18', 'C19']}
